@@ -48,6 +48,23 @@ Theorem C11_udp_fifo_whole : forall ops max,
 Proof. exact fifo_whole. Qed.
 Print Assumptions C11_udp_fifo_whole.
 
+(* the hypotheses are satisfiable and every branch is taken: empty datagram, trailing bytes beyond
+   the length field cut off, drop on a full buffer, drop on Length < 8, FIFO reads, ErrWouldBlock *)
+Theorem C11_fifo_example :
+  let ops := [OBind (inr 53);
+              OArrive 1 [10;0;0;2] 8 [15;160; 0;53; 0;8; 0;0];
+              OArrive 2 [10;0;0;3] 12 [15;161; 0;53; 0;11; 0;0; 7;8;9; 200;201];
+              OArrive 1 [10;0;0;2] 9 [15;160; 0;53; 0;9; 0;0; 1];
+              OArrive 1 [10;0;0;2] 9 [15;160; 0;53; 0;7; 0;0; 1];
+              ORead; ORead; ORead] in
+  Forall arrival_ok ops /\
+  reads_of (snd (run ops (newEndpoint 3))) =
+    [mkDg 1 [10;0;0;2] 4000 []; mkDg 2 [10;0;0;3] 4001 [7;8;9]] /\
+  accepted ops 3 = [mkDg 1 [10;0;0;2] 4000 []; mkDg 2 [10;0;0;3] 4001 [7;8;9]] /\
+  last (snd (run ops (newEndpoint 3))) OutNone = OutRead (RErr ErrWouldBlock).
+Proof. exact fifo_example. Qed.
+Print Assumptions C11_fifo_example.
+
 (* FULL.  The refinement from any consistent state (rcvBufSize = queued bytes, flags agree with the
    endpoint state), for every continuation. *)
 Theorem C11_udp_refines_fifo : forall ops e,
